@@ -1048,7 +1048,13 @@ fn run_mprog(ctx: &numbat::Context, units: &Units, out: &mut Out, prog: &[D]) {
     let checked: Vec<String> = prog.iter().filter_map(|d| if let D::Let(n, _) = d { Some(n.clone()) } else { None }).collect();
     let mut tags = vec!["mprog".to_string()];
     // a global whose raw value is a NaN or an infinity
-    let nonfinite_global = answers.iter().any(|a| a.strip_prefix("q ").and_then(|r| r.split(' ').next()).and_then(|h| u64::from_str_radix(h, 16).ok()).map(|b| !f64::from_bits(b).is_finite()).unwrap_or(false));
+    let nonfinite_global = answers.iter().any(|a| {
+        // every `q <16 hex digits>` of the answer (also inside a list)
+        a.match_indices("q ").any(|(i, _)| {
+            let h: String = a[i + 2..].chars().take(16).collect();
+            h.len() == 16 && u64::from_str_radix(&h, 16).map(|b| !f64::from_bits(b).is_finite()).unwrap_or(false)
+        })
+    });
     if last == "err incompatible" || nonfinite_global {
         // classification of the failure: does the program rely on a polymorphic zero (with every `0.0` replaced by
         // `1.0` the checker rejects it) that met a NaN/infinity at run time (some sub-expression of the failing
